@@ -419,6 +419,10 @@ def rule_filegen(repo, chk):
             bad = p
     chk.ob('e', f.ref, 'every non-empty chunk that was read is yielded', bad is None and bool(ys), loc(f, f.node), path=pat.path_lines(bad) if bad else None,
            discr='all-yielded')
+    # … and after a chunk was yielded the generator ends only by way of another read (which then returned nothing): a short chunk is not the last one
+    pe = Q.escapes(g, ys, lambda n: n in reads, exc=()) if ys else None
+    chk.ob('e', f.ref, 'after yielding a chunk the generator asks for the next one before it ends (a short read is not the end of the stream)', pe is None and bool(ys),
+           loc(f, (ys or [g.entry])[0].ast if ys else f.node), path=pat.path_lines(pe, ys[0]) if pe else None, discr='reads-until-empty')
     sizes = [c for n in reads for c in calls_in(n.ast) if isinstance(c.func, ast.Attribute) and c.func.attr == 'read']
     chk.ob('e', f.ref, 'reads are bounded by the chunk size', all(c.args and src(c.args[0]) == f.params[1] for c in sizes), loc(f, f.node), discr='bounded-reads',
            nontrivial=False)
